@@ -116,6 +116,11 @@ def gen(tier, seed, chunk, nch):
     for _ in range((3000 if tier == "quick" else 100000) // nch):
         d = _decl(rng)
         prefix = "".join(rng.choice(WORDCH + " \n") for _ in range(rng.choice([1, 5, 30, 200]))).encode()
+        if len(d["opts"]) >= 2 and rng.random() < 0.3:
+            # the text is asked for (and parsing attempted) while the declaration is still incomplete; the final
+            # text must list everything all the same
+            at = rng.randrange(len(d["opts"]) - 1)
+            d["interleave"] = [(at, rng.choice(["USAGE F", "USAGE C", "PARSE A"]))]
         cases.append({"decl": d, "prefix": prefix})
     return cases
 
@@ -306,6 +311,10 @@ def check_text(decl, text):
 
 def evaluate(case, lines, S):
     ul = [l for l in lines if l.startswith("U ")]
+    early = sum(1 for _, raw in case["decl"].get("interleave", ()) if raw.startswith("USAGE"))
+    if early:
+        S.counters["text-requested-before-the-declaration-was-complete"] += 1
+        ul = ul[early:]
     if len(ul) != 5:
         S.inconc.append("expected 5 usage lines, got %d" % len(ul))
         return
